@@ -30,6 +30,7 @@ type c10 struct {
 	// whatever either peer sends next waits in the task queue
 	busy        *Req
 	busyDag     *DAG
+	staleFail   bool // coherent variant of the failing-sends family (see Build)
 	staleTask   bool // coherent variant: the other peer queues and cancels a request under the ID before the first peer uses it
 	unpausedAt  int  // step at which the responder's operator resumed the first peer's response (0 = not yet)
 	pausedAtMsg int
@@ -52,6 +53,15 @@ func (s *c10) Build(w *World) {
 	s.a = NewNode(w, "A", cfg)
 	bcfg := cfg
 	oneWorker := t.Chance(300)
+	// sends to the other peer may fail for good (its messages are abandoned, their failure is reported later)
+	failT := !oneWorker && t.Chance(300)
+	if failT {
+		bcfg.Opts = append(bcfg.Opts, gsimpl.MessageSendRetries(2)) // (one attempt may be used up by a stream that idled out)
+		w.Net.SendFaults = []string{"fail"}
+		w.Net.SendFaultPairs = map[string]bool{"B>T": true}
+		w.Prof.FaultPm = map[string]int{"send": 500}
+		w.Prof.FaultBudget = 2 + t.Draw(3)
+	}
 	if oneWorker {
 		bcfg.Opts = append(bcfg.Opts, gsimpl.MaxInProgressIncomingRequests(1))
 	}
@@ -85,8 +95,14 @@ func (s *c10) Build(w *World) {
 	s.b.OnRequestUpdated = func(p peer.ID, r graphsync.RequestData, u graphsync.RequestData, a graphsync.RequestUpdatedHookActions) {
 		a.SendExtensionData(graphsync.ExtensionData{Name: "sim/update-seen", Data: basicnode.NewString("u")})
 	}
-	s.early = t.Chance(300) || s.staleTask
-	s.refuseT = t.Chance(500) && !s.staleTask
+	s.early = t.Chance(300) || s.staleTask || (failT && t.Chance(700))
+	// coherent variant of the failing-sends family: the other peer is served under the ID, cancels, and only
+	// then do the sends of its abandoned response fail - by which time the first peer may hold the ID
+	s.staleFail = failT && s.early && t.Chance(600)
+	if s.staleFail {
+		w.Prof.FaultPm["send"] = 850
+	}
+	s.refuseT = t.Chance(500) && !s.staleTask && !s.staleFail
 	if s.refuseT {
 		s.b.OnIncomingRequest = func(p peer.ID, r graphsync.RequestData, a graphsync.IncomingRequestHookActions) {
 			if w.Net.Name(p) == "T" {
@@ -128,13 +144,13 @@ func (s *c10) Build(w *World) {
 		return false
 	}
 	n := 1 + t.Draw(4)
-	if s.staleTask {
+	if s.staleTask || s.staleFail {
 		n = 2
 	}
 	for i := 0; i < n; i++ {
 		var rq gsmsg.GraphSyncRequest
 		k := t.Draw(3)
-		if s.staleTask {
+		if s.staleTask || s.staleFail {
 			k = []int{2, 0}[i] // new, then cancel
 		}
 		switch k {
@@ -157,7 +173,7 @@ func (s *c10) Build(w *World) {
 			return []*Event{s.busy.IssueEvent()}
 		}
 		if !s.req.Issued {
-			if s.staleTask {
+			if s.staleTask || s.staleFail {
 				// the first peer comes after the other peer's request and cancel have reached the responder
 				delivered := 0
 				for _, wm := range w.Net.WireFor("T", "B") {
